@@ -74,6 +74,11 @@ def latLoop (z r : α) : Nat → α → Option (α × α × Nat)
       | some (l, c', n) => some (l, c', n + 1)
       | none => none
 
+/-- altitude in earth radii after the loop: `r cos φ + z sin φ − √(1 − e² sin² φ)`
+    (equal to `r / cos φ − c(φ)` at the fixed point, but regular on and near the polar axis) -/
+def altOf (z r lat : α) : α :=
+  r * Num.cos lat + z * Num.sin lat - Num.sqrt ((1 : α) - e2 * Num.sin lat * Num.sin lat)
+
 /-- `get_lonlatalt` from the *normalised* position (earth radii) → (lon°, lat°, alt km, iterations) -/
 def lonLatAlt (d : α) (pn : V3 α) (fuel : Nat := 200) : Option (α × α × α × Nat) :=
   let k : α := Gen.orbital_XKMPER
@@ -82,8 +87,8 @@ def lonLatAlt (d : α) (pn : V3 α) (fuel : Nat := 200) : Option (α × α × α
   let lat0 := Num.atan2 pn.z r
   match latLoop pn.z r fuel lat0 with
   | none => none
-  | some (lat, c, n) =>
-    let alt := (r / Num.cos lat - c) * A
+  | some (lat, _, n) =>
+    let alt := altOf pn.z r lat * A
     some (rad2deg lon, rad2deg lat, alt, n)
 
 /-- `geoloc.get_lonlatalt(pos_km, t)`: divides by XKMPER first, then identical -/
